@@ -299,6 +299,60 @@ def build(tier="quick", seed=0):
                     continue
                 scope_ob(f"C12.scope[prior={list(prior)},raises={body_raises},nested={nested}]", prior, body_raises, nested)
 
+    # ---- timestamps that denote one instant with different UTC offsets are equal as values: records holding them are equal and hash alike (plain, list, nested, grouped, _generated)
+    import datetime as _dtm
+
+    INSTANT = [_dtm.datetime(2020, 1, 1, 12, 0, 5, tzinfo=_dtm.timezone.utc), _dtm.datetime(2020, 1, 1, 13, 0, 5, tzinfo=_dtm.timezone(_dtm.timedelta(hours=1))), _dtm.datetime(2020, 1, 1, 6, 30, 5, tzinfo=_dtm.timezone(_dtm.timedelta(hours=-5, minutes=-30)))]
+    for shape in ("plain", "list", "nested", "grouped", "_generated"):
+        name = f"C12.hash[one instant at UTC and at other offsets, {shape}]"
+
+        def th_inst(shape=shape):
+            T = it.call(RD, ["c12/ts", [("datetime", "ts"), ("datetime[]", "tl"), ("varint", "k")]], {})
+            N = it.call(RD, ["c12/tsn", [("record", "r")]], {})
+            recs = []
+            for d in INSTANT:
+                if shape == "plain":
+                    r = it.call(T, [], {"ts": d, "tl": [], "k": 1, "_generated": INSTANT[0]})
+                elif shape == "list":
+                    r = it.call(T, [], {"ts": None, "tl": [d, INSTANT[0]], "k": 1, "_generated": INSTANT[0]})
+                elif shape == "_generated":
+                    r = it.call(T, [], {"ts": None, "tl": [], "k": 1, "_generated": d})
+                elif shape == "nested":
+                    r = it.call(N, [], {"r": it.call(T, [], {"ts": d, "tl": [], "k": 1, "_generated": INSTANT[0]}), "_generated": INSTANT[0]})
+                else:
+                    r = it.call(base.g["GroupedRecord"], ["c12/g", [it.call(T, [], {"ts": d, "tl": [], "k": 1, "_generated": INSTANT[0]})]], {})
+                recs.append(r)
+            eqs = [it.truth(it.compare("Eq", recs[0], r)) for r in recs[1:]]
+            hs = [hterm(it.hash_(r)) for r in recs]
+            return eqs, hs
+
+        def judge_inst(p):
+            eqs, hs = p.value
+            if not all(e is True for e in eqs):
+                return False, f"records holding the same instant at different offsets are not equal: {eqs}"
+            same = [h == hs[0] for h in hs[1:]]
+            if all(isinstance(x, bool) for x in same):
+                return all(same), f"equal records hash differently: {hs!r:.200}"
+            return z3.And(*[x if not isinstance(x, bool) else z3.BoolVal(x) for x in same]), "equal records hash differently"
+
+        pack.add(Obligation(name, lambda tier, name=name, th_inst=th_inst, judge_inst=judge_inst: prove_paths(name, with_clean_config(th_inst), judge_inst, lambda m, p: {}), replay=lambda w, shape=shape: {"call": "c12_one_instant", "args": {"shape": shape}}, functions=FU))
+
+    # ---- a configuration that names only reserved (metadata) fields, or also names no record has, applies to grouped records like to plain ones
+    for cfg in (["_generated"], ["_generated", "_source"], ["_generated", "no_such_field"]):
+        name = f"C12.grouped[ignored fields {cfg}: members that differ only there]"
+
+        def th_gcfg(cfg=cfg):
+            T = it.call(RD, ["c12/gm", [("varint", "k"), ("string", "s")]], {})
+            g1 = it.call(base.g["GroupedRecord"], ["c12/g", [it.call(T, [], {"k": 1, "s": "x", "_generated": INSTANT[0], "_source": "a"})]], {})
+            g2 = it.call(base.g["GroupedRecord"], ["c12/g", [it.call(T, [], {"k": 1, "s": "x", "_generated": INSTANT[0] + _dtm.timedelta(seconds=5), "_source": "a"})]], {})
+            p1 = it.call(T, [], {"k": 1, "s": "x", "_generated": INSTANT[0], "_source": "a"})
+            p2 = it.call(T, [], {"k": 1, "s": "x", "_generated": INSTANT[0] + _dtm.timedelta(seconds=5), "_source": "a"})
+            set_ignore(cfg)
+            return it.truth(it.compare("Eq", g1, g2)), it.truth(it.compare("NotEq", g1, g2)), hterm(it.hash_(g1)) == hterm(it.hash_(g2)), it.truth(it.compare("Eq", p1, p2))
+
+        pack.add(Obligation(name, lambda tier, name=name, th_gcfg=th_gcfg, cfg=cfg: prove_paths(name, with_clean_config(th_gcfg), lambda p: (p.value[0] is True and p.value[1] is False and p.value[3] is True and (p.value[2] if isinstance(p.value[2], bool) else True), f"grouped records that differ only in _generated under the ignored fields {cfg}: == {p.value[0]}, != {p.value[1]}, equal hashes {p.value[2]} (plain records: == {p.value[3]})"), lambda m, p: {}),
+                            replay=lambda w, cfg=cfg: {"call": "c12_grouped_cfg", "args": {"cfg": cfg}}, functions=FU))
+
     # ---- the configuration may be given as ANY iterable of names (the setter's signature says Iterable): also one that can be walked only once
     KINDS = {"list": lambda: ["n", "q"], "tuple": lambda: ("n", "q"), "set": lambda: {"n", "q"}, "frozenset": lambda: frozenset({"n", "q"}), "dict keys": lambda: {"n": 1, "q": 2}.keys(), "generator expression": lambda: (x_ for x_ in ["n", "q"]),
              "iterator": lambda: iter(["n", "q"]), "map object": lambda: map(str, ["n", "q"]), "filter object": lambda: filter(None, ["n", "", "q"])}
